@@ -42,7 +42,8 @@ def rtext(rnd):
     parts = []
     for _ in range(rnd.randint(1, 4)):
         parts.append(rnd.choice(["", " ", "\n  ", "\t"]))
-        parts.append(rnd.choice(["x", "word", "a&b", "1<2", "é漢", "]]>", "'q\"", "two words", "ü"]))
+        parts.append(rnd.choice(["x", "word", "a&b", "1<2", "é漢", "]]>", "'q\"", "two words", "ü",
+                                "e\u0301", "A\u030a", "\u212b", "\u2126", "\u1100\u1161", "\ufb01", "\u0958", "\u200b", "\ufeff"]))
     parts.append(rnd.choice(["", " ", "\n"]))
     return "".join(parts)
 
